@@ -477,7 +477,10 @@ class NestedFrame(pd.DataFrame):
             if isinstance(packed_df, pd.Series):
                 # rows of packed_df correspond to the rows of df positionally;
                 # an index join would multiply the rows with repeated index labels
-                return NestedFrame(df[base_columns].assign(**{name: packed_df.array}))
+                # (not `assign(**{name: ...})`: a keyword argument cannot be called "self")
+                result = NestedFrame(df[base_columns].copy())
+                result[name] = packed_df.array
+                return result
             return NestedFrame(df[base_columns].join(packed_df))
         # or just return the packed_df as a nestedframe if no base cols
         else:
@@ -1131,9 +1134,9 @@ class NestedFrame(pd.DataFrame):
                 layer_cols = [col for col in results_nf.columns if col.startswith(f"{layer}.")]
                 rename_df = results_nf[layer_cols].rename(columns=lambda x: x.split(".", 1)[1])
                 nested_col = pack_lists(rename_df, name=layer)
-                results_nf = results_nf[
-                    [col for col in results_nf.columns if not col.startswith(f"{layer}.")]
-                ].assign(**{layer: nested_col.array})
+                # (not `assign(**{layer: ...})`: a keyword argument cannot be called "self")
+                results_nf = results_nf.drop(columns=layer_cols)
+                results_nf[layer] = nested_col.array
 
         return results_nf
 
